@@ -30,6 +30,8 @@ ALLOWED_REMOVALS = {b"\n", b"\r", b"<\x00  \x00"}
 
 def check(run):
     prog = run.prog
+    from . import common as _common
+    _common.fresh_hits(run, "C13")
     A = sites.analysis(prog)
     B64 = rx.mask_of(GR.B64_ALPHABET)
     PAD = rx.mask_of(b"=")
